@@ -57,6 +57,36 @@ def _worker(task):
 
 
 def run_tasks(tasks, nproc=None):
+    """runs the tasks; tasks that leave a property/aux obligation `unknown` are run ONCE more afterwards, a few at a time:
+    the verdict of a non-linear query must not depend on how busy the machine was (an obligation is undecided only if it
+    is undecided twice)"""
+    res = _run_tasks_once(tasks, nproc)
+    by_task = {}
+    for r in res:
+        by_task.setdefault(r.get('task'), []).append(r)
+    flaky = []
+    for t in tasks:
+        key = f"{t[1]}{t[2]!r}"[:120]
+        rs = by_task.get(key, [])
+        if any(r['verdict'] == 'unknown' and r['kind'] in ('property', 'aux') and r.get('case') != 'wall-clock budget' for r in rs):
+            flaky.append((t, key))
+    if not flaky or len(flaky) > 12:
+        return res
+    again = _run_tasks_once([t for t, _ in flaky], min(4, NPROC))
+    again_by = {}
+    for r in again:
+        again_by.setdefault(r.get('task'), []).append(r)
+    out = [r for r in res if r.get('task') not in {k for _, k in flaky}]
+    for _, key in flaky:
+        first, second = by_task.get(key, []), again_by.get(key, [])
+        n1 = sum(1 for r in first if r['verdict'] == 'unknown')
+        n2 = sum(1 for r in second if r['verdict'] == 'unknown')
+        crashed = any(r['verdict'] == 'crash' for r in second)
+        out.extend(second if (second and not crashed and n2 <= n1) else first)
+    return out
+
+
+def _run_tasks_once(tasks, nproc=None):
     nproc = nproc or NPROC
     if not tasks:
         return []
